@@ -14,7 +14,7 @@ package models
 //@ axiom psumStep: forall(l []int, forall(i int, 0 <= i && i < len(l) ==> psum(l, i + 1) == psum(l, i) + l[i]))
 //@ constglobal errors.ErrLocationsCount
 //@ axiom errLocationsCountNonNil: errors.ErrLocationsCount != nil
-//@ property C10: verifyHashRuleSliceInfos, includeSlice
+//@ property C10: verifyHashRuleSliceInfos, includeSlice, (*Namespace).verifyDefaultSlice
 
 // the validator accepts a locations list only when it has one entry per slice, no negative entry and at least one table;
 // the layout it computes maps table t to the slice i with psum(i) <= t < psum(i+1), and nothing else
@@ -37,3 +37,10 @@ package models
 //@   assigns \nothing
 //@   loop 0 invariant forall(k, 0, rangeindex + 1, slices[k] != sliceName)
 //@   ensures ret0 <==> exists(k, 0, len(slices), slices[k] == sliceName)
+
+// an accepted namespace names a default slice that exists: NewRouter insists on it (includeSlice(slice names, default slice))
+//@ func (*Namespace).verifyDefaultSlice
+//@   requires n != nil && forall(k, 0, len(n.Slices), n.Slices[k] != nil)
+//@   assigns \nothing
+//@   loop 0 invariant forall(k, 0, rangeindex + 1, n.Slices[k].Name != n.DefaultSlice)
+//@   ensures case loads: ret0 == nil ==> exists(k, 0, len(n.Slices), n.Slices[k].Name == n.DefaultSlice)
